@@ -1,4 +1,400 @@
 import Bifrost.Model.Solicit
+import Bifrost.Lemmas.ProtoRoundTrip
 /-! Helper lemmas for C30 and C32 (lexicographic order, uvarint/multihash prefix-freeness, merge intersection). -/
 namespace Bifrost
+
+/-! ### `lexLt` is a strict total order -/
+
+theorem lexLt_irrefl : ∀ a : Bytes, lexLt a a = false := by
+  intro a
+  induction a with
+  | nil => rfl
+  | cons x xs ih =>
+    have : ¬ x < x := by rw [UInt8.lt_iff_toNat_lt]; omega
+    simp [lexLt, this, ih]
+
+theorem lexLt_asymm : ∀ a b : Bytes, lexLt a b = true → lexLt b a = false := by
+  intro a
+  induction a with
+  | nil => intro b _; cases b <;> rfl
+  | cons x xs ih =>
+    intro b h
+    cases b with
+    | nil => simp [lexLt] at h
+    | cons y ys =>
+      unfold lexLt at h ⊢
+      by_cases hxy : x < y
+      · have hyx : ¬ y < x := by rw [UInt8.lt_iff_toNat_lt] at hxy ⊢; omega
+        simp [hyx, hxy]
+      · by_cases hyx : y < x
+        · simp [hxy, hyx] at h
+        · simp only [hxy, hyx, ↓reduceIte] at h ⊢
+          simpa using ih ys h
+
+theorem lexLt_trans : ∀ a b c : Bytes, lexLt a b = true → lexLt b c = true → lexLt a c = true := by
+  intro a
+  induction a with
+  | nil =>
+    intro b c hab hbc
+    cases c with
+    | nil => cases b <;> simp [lexLt] at hbc
+    | cons => rfl
+  | cons x xs ih =>
+    intro b c hab hbc
+    cases b with
+    | nil => simp [lexLt] at hab
+    | cons y ys =>
+      cases c with
+      | nil => simp [lexLt] at hbc
+      | cons z zs =>
+        unfold lexLt at hab hbc ⊢
+        by_cases hxy : x < y
+        · by_cases hyz : y < z
+          · have : x < z := by rw [UInt8.lt_iff_toNat_lt] at hxy hyz ⊢; omega
+            simp [this]
+          · by_cases hzy : z < y
+            · simp [hyz, hzy] at hbc
+            · have : x < z := by rw [UInt8.lt_iff_toNat_lt] at hxy hyz hzy ⊢; omega
+              simp [this]
+        · by_cases hyx : y < x
+          · simp [hxy, hyx] at hab
+          · simp only [hxy, hyx, ↓reduceIte] at hab
+            by_cases hyz : y < z
+            · have : x < z := by rw [UInt8.lt_iff_toNat_lt] at hxy hyx hyz ⊢; omega
+              simp [this]
+            · by_cases hzy : z < y
+              · simp [hyz, hzy] at hbc
+              · simp only [hyz, hzy, ↓reduceIte] at hbc
+                have h1 : ¬ x < z := by rw [UInt8.lt_iff_toNat_lt] at hxy hyx hyz hzy ⊢; omega
+                have h2 : ¬ z < x := by rw [UInt8.lt_iff_toNat_lt] at hxy hyx hyz hzy ⊢; omega
+                simp only [h1, h2, ↓reduceIte]
+                exact ih ys zs hab hbc
+
+theorem lexLt_trichotomy : ∀ a b : Bytes, lexLt a b = false → lexLt b a = false → a = b := by
+  intro a
+  induction a with
+  | nil => intro b h _; cases b with
+    | nil => rfl
+    | cons => simp [lexLt] at h
+  | cons x xs ih =>
+    intro b h1 h2
+    cases b with
+    | nil => simp [lexLt] at h2
+    | cons y ys =>
+      unfold lexLt at h1 h2
+      by_cases hxy : x < y
+      · simp [hxy] at h1
+      · by_cases hyx : y < x
+        · simp [hyx] at h2
+        · simp only [hxy, hyx, ↓reduceIte] at h1 h2
+          have : x = y := by
+            apply UInt8.toNat_inj.mp
+            rw [UInt8.lt_iff_toNat_lt] at hxy hyx; omega
+          rw [this, ih ys h1 h2]
+
+/-- `≤` (i.e. `¬ b < a`) is transitive. -/
+theorem lexLe_trans (a b c : Bytes) (hab : lexLt b a = false) (hbc : lexLt c b = false) :
+    lexLt c a = false := by
+  cases hca : lexLt c a with
+  | false => rfl
+  | true =>
+    cases hab' : lexLt a b with
+    | true =>
+      have := lexLt_trans c a b hca hab'
+      rw [this] at hbc; cases hbc
+    | false =>
+      have := lexLt_trichotomy a b hab' hab
+      subst this
+      rw [hca] at hbc; cases hbc
+
+theorem lexLt_of_lt_of_le (a b c : Bytes) (hab : lexLt a b = true) (hbc : lexLt c b = false) :
+    lexLt a c = true := by
+  cases hbc' : lexLt b c with
+  | true => exact lexLt_trans a b c hab hbc'
+  | false =>
+    have := lexLt_trichotomy b c hbc' hbc
+    subst this; exact hab
+
+/-! ### uvarint decoding only looks at the bytes it consumes -/
+
+namespace Uv
+
+theorem decodeFrom_append (x : Bytes) : ∀ (i v n : Nat) (y : Bytes),
+    decodeFrom i x = .ok v n → decodeFrom i (x ++ y) = .ok v n ∧ n ≤ x.length := by
+  induction x with
+  | nil => intro i v n y h; simp [decodeFrom] at h
+  | cons a rest ih =>
+    intro i v n y h
+    rw [List.cons_append]
+    unfold decodeFrom at h ⊢
+    by_cases h10 : i ≥ 10
+    · simp [h10] at h
+    · simp only [h10, ↓reduceIte] at h ⊢
+      by_cases ha : a < 0x80
+      · simp only [ha, ↓reduceIte] at h ⊢
+        by_cases h9 : i = 9 ∧ a > 1
+        · simp [h9] at h
+        · simp only [h9, ↓reduceIte] at h ⊢
+          injection h with hv hn
+          subst hn
+          exact ⟨by rw [hv], by simp⟩
+      · simp only [ha, ↓reduceIte] at h ⊢
+        cases hc : decodeFrom (i + 1) rest with
+        | ok v' n' =>
+          rw [hc] at h
+          have := ih (i + 1) v' n' y hc
+          rw [this.1]
+          simp only at h ⊢
+          injection h with hv hn
+          subst hn
+          exact ⟨by rw [hv], by simp; exact this.2⟩
+        | eof => rw [hc] at h; cases h
+        | overflow => rw [hc] at h; cases h
+
+theorem decode_append (x y : Bytes) (v n : Nat) (h : decode x = .ok v n) :
+    decode (x ++ y) = .ok v n ∧ n ≤ x.length :=
+  decodeFrom_append x 0 v n y h
+
+end Uv
+
+/-! ### multihash prefix-freeness -/
+
+namespace Codec
+
+/-- Total length of the multihash at the head of a stream, as determined by its two varints. -/
+def mhLen (s : Bytes) : Option Nat :=
+  match Uv.decode s with
+  | .ok _ n =>
+    match Uv.decode (s.drop n) with
+    | .ok dlen m => some (n + m + dlen % 2 ^ 64)
+    | _ => none
+  | _ => none
+
+theorem mhLen_of_decodeMultihash (a : Bytes) (r : Nat × Bytes) (h : decodeMultihash a = some r)
+    (b : Bytes) : mhLen (a ++ b) = some a.length := by
+  unfold decodeMultihash at h
+  split at h
+  · cases h
+  · cases h1 : Uv.decode a with
+    | ok code n =>
+      rw [h1] at h
+      simp only at h
+      cases h2 : Uv.decode (a.drop n) with
+      | ok dlen m =>
+        rw [h2] at h
+        simp only at h
+        split at h
+        · cases h
+        · rename_i hlen
+          have hlen' : ((a.drop n).drop m).length = dlen % 2 ^ 64 := by
+            simpa using hlen
+          obtain ⟨e1, hn⟩ := Uv.decode_append a b code n h1
+          obtain ⟨e2, hm⟩ := Uv.decode_append (a.drop n) b dlen m h2
+          unfold mhLen
+          rw [e1]
+          simp only
+          rw [List.drop_append_of_le_length hn, e2]
+          simp only [List.length_drop] at hlen' hm
+          simp only [Option.some.injEq]
+          omega
+      | eof => rw [h2] at h; cases h
+      | overflow => rw [h2] at h; cases h
+    | eof => rw [h1] at h; cases h
+    | overflow => rw [h1] at h; cases h
+
+theorem decodeMultihash_prefix_free (a b c d : Bytes) (ra rc : Nat × Bytes)
+    (ha : decodeMultihash a = some ra) (hc : decodeMultihash c = some rc)
+    (h : a ++ b = c ++ d) : a = c ∧ b = d := by
+  have h1 := mhLen_of_decodeMultihash a ra ha b
+  have h2 := mhLen_of_decodeMultihash c rc hc d
+  rw [h, h2] at h1
+  injection h1 with h1
+  exact List.append_inj h h1.symm
+
+theorem idFromBytes_accepts (b id : Bytes) (h : idFromBytes b = some id) :
+    ∃ r, decodeMultihash b = some r := by
+  unfold idFromBytes at h
+  split at h
+  · rename_i r hr
+    exact ⟨r, hr⟩
+  · cases h
+
+theorem idFromBytes_prefix_free (a b c d : Bytes)
+    (ha : idFromBytes a = some a) (hc : idFromBytes c = some c)
+    (h : a ++ b = c ++ d) : a = c ∧ b = d := by
+  obtain ⟨ra, hra⟩ := idFromBytes_accepts a a ha
+  obtain ⟨rc, hrc⟩ := idFromBytes_accepts c c hc
+  exact decodeMultihash_prefix_free a b c d ra rc hra hrc h
+
+end Codec
+
+namespace Solicit
+
+/-! ### session preimage -/
+
+theorem sessionPreimage_comm (a b : Bytes) : sessionPreimage a b = sessionPreimage b a := by
+  unfold sessionPreimage
+  cases hba : lexLt b a with
+  | true =>
+    have := lexLt_asymm b a hba
+    simp [this]
+  | false =>
+    cases hab : lexLt a b with
+    | true => simp
+    | false =>
+      have := lexLt_trichotomy a b hab hba
+      subst this
+      simp
+
+theorem sessionPreimage_cases (a b : Bytes) :
+    sessionPreimage a b = a ++ b ∨ sessionPreimage a b = b ++ a := by
+  unfold sessionPreimage
+  split
+  · exact Or.inr rfl
+  · exact Or.inl rfl
+
+/-! ### protocol preimage -/
+
+theorem protocolPreimage_inj (sid sid' pid pid' ctx ctx' : Bytes)
+    (hs : sid.length = sid'.length) (hp : pid.length < 2 ^ 64) (hp' : pid'.length < 2 ^ 64)
+    (h : protocolPreimage sid pid ctx = protocolPreimage sid' pid' ctx') :
+    sid = sid' ∧ pid = pid' ∧ ctx = ctx' := by
+  unfold protocolPreimage at h
+  simp only [List.append_assoc] at h
+  obtain ⟨h1, h2⟩ := List.append_inj h hs
+  have d1 := Uv.decode_put pid.length hp (pid ++ ctx)
+  have d2 := Uv.decode_put pid'.length hp' (pid' ++ ctx')
+  rw [h2, d2] at d1
+  injection d1 with hv hn
+  have hput : Uv.put pid.length = Uv.put pid'.length := by rw [hv]
+  rw [hput] at h2
+  have h3 := List.append_cancel_left h2
+  obtain ⟨h4, h5⟩ := List.append_inj h3 hv.symm
+  exact ⟨h1, h4, h5⟩
+
+/-! ### two-pointer intersection -/
+
+theorem findMatching_sublist (l r : List Bytes) : (findMatching l r).Sublist l := by
+  fun_induction findMatching l r with
+  | case1 => exact List.Sublist.refl _
+  | case2 => exact List.nil_sublist _
+  | case3 x xs y ys h ih => exact ih.trans (List.sublist_cons_self x xs)
+  | case4 x xs y ys h1 h2 ih => exact ih
+  | case5 x xs y ys h1 h2 ih => exact ih.cons_cons x
+
+theorem findMatching_mem_iff (l r : List Bytes)
+    (hl : l.Pairwise (fun a b => lexLt b a = false))
+    (hr : r.Pairwise (fun a b => lexLt b a = false)) (z : Bytes) :
+    z ∈ findMatching l r ↔ z ∈ l ∧ z ∈ r := by
+  fun_induction findMatching l r with
+  | case1 => simp
+  | case2 => simp
+  | case3 x xs y ys h ih =>
+    rw [List.pairwise_cons] at hl
+    rw [ih hl.2 hr]
+    have hx : x ∉ y :: ys := by
+      intro hm
+      rw [List.mem_cons] at hm
+      rcases hm with rfl | hm
+      · rw [lexLt_irrefl] at h; cases h
+      · have h1 := (List.pairwise_cons.mp hr).1 x hm
+        have h2 := lexLt_asymm x y h
+        have := lexLt_trichotomy y x h2 h1
+        subst this
+        rw [lexLt_irrefl] at h; cases h
+    constructor
+    · rintro ⟨h1, h2⟩
+      exact ⟨List.mem_cons_of_mem _ h1, h2⟩
+    · rintro ⟨h1, h2⟩
+      rw [List.mem_cons] at h1
+      rcases h1 with rfl | h1
+      · exact absurd h2 hx
+      · exact ⟨h1, h2⟩
+  | case4 x xs y ys h1 h2 ih =>
+    have hr' := List.pairwise_cons.mp hr
+    rw [ih hl hr'.2]
+    have hy : y ∉ x :: xs := by
+      intro hm
+      rw [List.mem_cons] at hm
+      rcases hm with rfl | hm
+      · rw [lexLt_irrefl] at h2; cases h2
+      · have h3 := (List.pairwise_cons.mp hl).1 y hm
+        have h4 := lexLt_asymm y x h2
+        have := lexLt_trichotomy x y h4 h3
+        subst this
+        rw [lexLt_irrefl] at h2; cases h2
+    constructor
+    · rintro ⟨h3, h4⟩
+      exact ⟨h3, List.mem_cons_of_mem _ h4⟩
+    · rintro ⟨h3, h4⟩
+      rw [List.mem_cons] at h4
+      rcases h4 with rfl | h4
+      · exact absurd h3 hy
+      · exact ⟨h3, h4⟩
+  | case5 x xs y ys h1 h2 ih =>
+    have hxy : x = y := lexLt_trichotomy x y (by simpa using h1) (by simpa using h2)
+    subst hxy
+    have hl' := List.pairwise_cons.mp hl
+    have hr' := List.pairwise_cons.mp hr
+    rw [List.mem_cons, ih hl'.2 hr'.2, List.mem_cons, List.mem_cons]
+    constructor
+    · rintro (h | ⟨h3, h4⟩)
+      · exact ⟨Or.inl h, Or.inl h⟩
+      · exact ⟨Or.inr h3, Or.inr h4⟩
+    · rintro ⟨h3 | h3, h4 | h4⟩
+      · exact Or.inl h3
+      · exact Or.inl h3
+      · exact Or.inl h4
+      · exact Or.inr ⟨h3, h4⟩
+
+/-! ### insertion sort -/
+
+theorem insertSorted_perm (x : Bytes) (l : List Bytes) : (insertSorted x l).Perm (x :: l) := by
+  induction l with
+  | nil => exact List.Perm.refl _
+  | cons y ys ih =>
+    unfold insertSorted
+    split
+    · exact (ih.cons y).trans (List.Perm.swap x y ys)
+    · exact List.Perm.refl _
+
+theorem insertSorted_sorted (x : Bytes) (l : List Bytes)
+    (hl : l.Pairwise (fun a b => lexLt b a = false)) :
+    (insertSorted x l).Pairwise (fun a b => lexLt b a = false) := by
+  induction l with
+  | nil => simp [insertSorted]
+  | cons y ys ih =>
+    have hl' := List.pairwise_cons.mp hl
+    unfold insertSorted
+    split
+    · rename_i hyx
+      rw [List.pairwise_cons]
+      refine ⟨?_, ih hl'.2⟩
+      intro z hz
+      have hz' := (insertSorted_perm x ys).mem_iff.mp hz
+      rw [List.mem_cons] at hz'
+      rcases hz' with rfl | hz'
+      · exact lexLt_asymm y z hyx
+      · exact hl'.1 z hz'
+    · rename_i hyx
+      have hyx' : lexLt y x = false := by simpa using hyx
+      rw [List.pairwise_cons]
+      refine ⟨?_, hl⟩
+      intro z hz
+      rw [List.mem_cons] at hz
+      rcases hz with rfl | hz
+      · exact hyx'
+      · exact lexLe_trans x y z hyx' (hl'.1 z hz)
+
+theorem sortHashes_sorted_perm (l : List Bytes) :
+    (sortHashes l).Pairwise (fun a b => lexLt b a = false) ∧ (sortHashes l).Perm l := by
+  induction l with
+  | nil => exact ⟨List.Pairwise.nil, List.Perm.refl _⟩
+  | cons x xs ih =>
+    have e : sortHashes (x :: xs) = insertSorted x (sortHashes xs) := rfl
+    rw [e]
+    exact ⟨insertSorted_sorted x _ ih.1, (insertSorted_perm x _).trans (ih.2.cons x)⟩
+
+end Solicit
+
 end Bifrost
